@@ -38,6 +38,18 @@ def scenarios(seed, tier):
         elif ok and i % 10 == 7:
             c = ST.focus_holding(c, r1)
         yield 'st%d' % i, c
+    from .. import gen
+    for i in range(n // 10):
+        r1 = random.Random(rnd.getrandbits(48))
+        sc = gen.gen_portfolio(r1, kinds=['simple'], tmax=12, tz_prob=0.1, allow_mip=False, max_assets=2, nodes_max=1, allow_freq=False, allow_periodic=False)
+        g = sc['grid']
+        T = g['T_nominal']
+        base = gen.gen_storage(r1, g, sc['prices'], T, 'ssto_b', [sc['nodes'][0]], False, False)
+        base['args'].setdefault('start_level', gen.q8(r1, 0, base['args']['size']))
+        base['args'].setdefault('end_level', base['args']['start_level'])
+        s_, nrm = r1.choice([0.5, 1.0, 2.0, 3.0]), r1.choice([0.5, 2.0, 4.0, 8.0])
+        sc['assets'].append({'type': 'ScaledAsset', 'name': 'ssto', 'base': base, 'args': {'min_scale': s_, 'max_scale': s_, 'norm_scale': nrm, 'fix_costs': 0.0}})
+        yield 'sc%d' % i, {'_stream': 'scaled', 'scn': sc, 'args': dict(base['args']), 'k': s_ / nrm}
     from ..comp import periodic as PE
     for i in range(n // 6):
         r1 = random.Random(rnd.getrandbits(48))
@@ -103,7 +115,54 @@ def run_pe(case):
     return r
 
 
+def run_scaled(case):
+    """a storage inside a scaled asset held at a fixed scale s (normalisation N): it is the storage with size, levels, inflow
+    and rates times s/N - physical level within [0, size s/N], back at end_level s/N, charge/discharge within rate s/N x dt"""
+    import numpy as np
+    from .. import pf, impl
+    r = {'evaluated': 1, 'nontrivial': False, 'features': ['stream:scaled-storage'], 'disagreements': [], 'violations': []}
+    try:
+        rec = pf.setup_mono(case['scn'])
+        pf.solve_rec(rec)
+    except Exception as e:
+        r['features'].append('setup-error:' + impl.err_class(e))
+        return r
+    if isinstance(rec['res'], str):
+        r['features'].append('unsolved')
+        return r
+    a, k = case['args'], case['k']
+    op, x, tg = rec['op'], np.asarray(rec['res'].x, dtype=float), rec['tg']
+    m = op.mapping
+    mm = m[(m['asset'] == 'ssto') & (m['type'] == 'd')]
+    if not len(mm):
+        return r
+    eff = float(a.get('eff_in', 1.0))
+    steps = sorted(set(int(t) for t in mm['time_step'].values))
+    dt = np.asarray(tg.dt, dtype=float)
+    flow = np.zeros(tg.T)
+    for i, t in zip(mm.index, mm['time_step'].values):
+        v = -x[int(i)]
+        flow[int(t)] += v * eff if v > 0 else v
+        cap = (float(a['cap_in']) if v > 0 else float(a['cap_out'])) * k * dt[int(t)]
+        if abs(v) > cap + 1e-6 * max(1.0, cap):
+            r['violations'].append({'oracle': 'storage.rates', 'detail': 'scaled storage (factor %g): step %d moves %.6g, rate x factor x dt = %.6g' % (k, int(t), v, cap), 'facts': {'kind': 'scaled_storage'}})
+            break
+    infl = float(a.get('inflow', 0.0)) * k
+    level = float(a.get('start_level', 0.0)) * k + np.cumsum((flow + infl * dt)[steps[0]:steps[-1] + 1])
+    size = float(a['size']) * k
+    tol = 1e-6 * max(1.0, size)
+    bad = np.where((level < -tol) | (level > size + tol))[0]
+    if len(bad):
+        r['violations'].append({'oracle': 'storage.level_bounds', 'detail': 'scaled storage (factor %g): physical level %.6g at step %d outside [0, %g]' % (k, level[bad[0]], steps[0] + int(bad[0]), size), 'facts': {'kind': 'scaled_storage'}})
+    if abs(level[-1] - float(a.get('end_level', 0.0)) * k) > tol:
+        r['violations'].append({'oracle': 'storage.end_level', 'detail': 'scaled storage (factor %g): physical level at the last step %.6g, end level x factor %g' % (k, level[-1], float(a.get('end_level', 0.0)) * k), 'facts': {'kind': 'scaled_storage'}})
+    r['nontrivial'] = bool(np.abs(flow).max() > 1e-7)
+    return r
+
+
 def run_case(case, drv):
     if case.get('_stream') == 'pe':
         return run_pe(case['case'])
+    if case.get('_stream') == 'scaled':
+        return run_scaled(case)
     return ST.run_case(case, drv)
